@@ -259,7 +259,7 @@ func (s *c10Sim) apply(op c10Op) {
 	case "close":
 		if s.closePC == 0 {
 			s.closePC, s.stopped = 1, true
-				if wasBlocked {
+			if wasBlocked {
 				s.tag("while-blocked/close")
 			}
 			if len(s.pending) > 0 {
